@@ -18,6 +18,7 @@ EXPLANATION = (
     "(shared with C17). R15.7 arguments of assert-backed size preconditions (base_blob(vector), XOnlyPubKey(Span), "
     "VerifySchnorr, and their wrappers) are validated by a dominating rejecting size test, come from a fixed-size producer, "
     "or have a fixed-size type. R15.8 `default: assert(0)` of opcode switches is unreachable (label agreement, shared with C17). "
+    "R15.11 the session driver never asserts on session state (stack, saved P2SH stack, ...) - interactive commands can bring it into any shape. "
     "R15.9 no iterator into the temporary exec script is stored in the session. Not decided: heap overflows through computed "
     "sizes, use-after-free in general, uninitialised reads other than R15.5, libsecp256k1/libreadline internals.")
 TRUSTED = ["clang 14 parser/Sema/CFG", "/verif extractor and engines", "libstdc++ / libsecp256k1 / libreadline as black boxes"]
@@ -469,6 +470,42 @@ def run(ctx, anchors=None):
                          "after fgets(%s, ...) failed, %s(%s) at %s reads the uninitialised buffer" % (btxt, reads[0].get("n") if reads else "", btxt, f.loc(reads[0]) if reads else ""))
     ctx.floor("R15.5", nfg, 1, "fgets calls")
 
+    # ---------------------------------------------------------------- R15.11 no assert on session state in the session driver
+    ctx.rule("R15.11", "the session driver (stepper, rewind, command handlers, instance) never asserts on session state a user can reach: it rejects with an error")
+    sess_files = ("debugger/interpreter.cpp", "functions.cpp", "instance.cpp")
+    n_asserts = 0
+    for f in fb.funcs.values():
+        if f.file not in sess_files or f.body is None or f.name.startswith("StepExtended"):
+            continue
+        al = astq.aliases(f)
+        for n in f.nodes():
+            if not (n["k"] == "call" and n.get("n") == "__assert_fail"):
+                continue
+            par = f.parent(n)
+            while par is not None and par.get("k") != "cond":
+                par = f.parent(par)
+            if par is None:
+                continue
+            n_asserts += 1
+            cond = par["cond"]
+            c0 = cond
+            while c0 is not None and c0.get("k") == "cast":
+                c0 = c0["e"]
+            if astq.const_value(cond) is not None or (c0 is not None and c0.get("k") == "un" and c0.get("op") == "!" and c0["e"].get("k") == "str"):
+                continue      # assert(0) / assert(!"text"): an unreachability marker, decided by R15.8 and the exhaustiveness rules
+            roots = set()
+            for x in walk(cond):
+                if x["k"] in ("ref", "mem"):
+                    for p_ in astq.paths(x, al):
+                        r0 = p_[0]
+                        if r0 == ("this",) or r0[0] == "parm" or (r0[0] == "global" and len(r0) > 1 and r0[1] in ("env", "instance")):
+                            roots.add(astq.path_str(p_))
+            ctx.site()
+            ctx.inst(not roots, "R15.11", "assert@%s:%s" % (f.name.split("(")[0], astq.estr(cond)[:40]), f.loc(n),
+                     "assert(%s) does not read session state" % astq.estr(cond)[:60],
+                     "%s asserts `%s`, which reads session state (%s) that interactive commands (exec, stepping after an error) can bring into any shape: "
+                     "a failed assertion aborts the debugger instead of failing the script" % (f.name, astq.estr(cond)[:80], ", ".join(sorted(roots))[:120]))
+    ctx.floor("R15.11", n_asserts, 1, "assert sites inspected in the session driver")
     # ---------------------------------------------------------------- R15.6 / R15.8 (shared with C17)
     from .. import report
     sub = report.Ctx("C17", ctx.tier, fb, prog, ctx.seed)
@@ -695,6 +732,7 @@ def callers_establish(fb, prog, ctor, a, K):
 
 
 MUTANTS = [
+    dict(name="p2sh-empty-stack-assert", file="debugger/interpreter.cpp", find="            if (env.p2shstack.empty())\n                return set_error(serror, SCRIPT_ERR_INVALID_STACK_OPERATION);\n", replace="            assert(!env.p2shstack.empty());\n", expect=["R15.11:assert@"]),
     dict(name="instance-dtor-deletes-shared-tce", file="instance.h", find="        delete env;\n", replace="        delete env;\n        delete tce;\n", expect=["R15.2:single-owner=InterpreterEnv::tce<-Instance::tce"]),
     dict(name="delete-strdup-memory", file="instance.cpp", find="        free(const_cast<char*>(push_del.back()));", replace="        delete push_del.back();", expect=["R15.2:dealloc=Instance::configure_tx_txin"]),
     dict(name="free-new-memory", file="cliargs.h", find="delete long_options.back();", replace="free(long_options.back());", expect=["R15.2:dealloc=cliargs::~cliargs"]),
